@@ -12,6 +12,7 @@ import (
 	"testing"
 
 	"github.com/remieven/ysgo"
+	"github.com/remieven/ysgo/variable"
 	"pgregory.net/rapid"
 )
 
@@ -197,7 +198,7 @@ func runC11(c c11Case) Verdict {
 	return cv
 }
 
-var visitScriptOpts = scriptOpts{maxNodes: 5, maxDepth: 3, maxBody: 3, tracking: true, visitText: true, noCommands: true, endWithJump: 4,
+var visitScriptOpts = scriptOpts{maxNodes: 5, maxDepth: 3, maxBody: 3, tracking: true, visitText: true, noCommands: true, endWithJump: 4, router: true,
 	extraStmt: func(g *scriptGen, depth int) *Stmt {
 		switch rapid.IntRange(0, 5).Draw(g.t, "visitstmt") {
 		case 0:
@@ -310,6 +311,11 @@ func runC12(c c12Case) Verdict {
 		return failf("generated script does not load: %v", err)
 	}
 	script := strings.Join(srcs, "\n-- next reader --\n")
+	// a host command registered under "stop" must never be dispatched (C17); were it, it would stay pending for ever
+	h.dr.AddCommand("stop", func(args []*variable.Value) <-chan error {
+		h.cmdLog = append(h.cmdLog, "stop-handler-invoked")
+		return make(chan error)
+	})
 	// the runner is driven until it reports the end itself; whether it got there the right way is C01's business
 	h.drive(c.Choices, nil, flowMaxEv, true)
 	if n := len(h.trace); n == 0 || h.trace[n-1].K != "end" {
@@ -351,7 +357,13 @@ func runC12(c c12Case) Verdict {
 var c12End = Register(Prop[c12Case]{
 	ID: "C12", Name: "absorbing-end",
 	Gen: func(t *rapid.T) c12Case {
-		o := scriptOpts{maxNodes: 3, maxDepth: 3, maxBody: 4, stopBias: 2, forwardOnly: true}
+		o := scriptOpts{maxNodes: 3, maxDepth: 3, maxBody: 4, stopBias: 2, forwardOnly: true, extraStmt: func(g *scriptGen, depth int) *Stmt {
+			if rapid.IntRange(0, 1).Draw(g.t, "wait") == 0 {
+				// a command that completes by itself a little later: the call that sees it finish must go on, not end
+				return &Stmt{K: "cmd", Words: []TextPart{{S: "wait"}, {S: rapid.SampledFrom([]string{"0", "0.0002", "0.002"}).Draw(g.t, "secs")}}}
+			}
+			return nil
+		}}
 		c := c12Case{flowCase: genFlowCase(t, o)}
 		c.Junk = nil
 		c.After = rapid.SliceOfN(rapid.SampledFrom([]int{0, 0, 1, 2, 3, 5, 99, -1, -7, 1 << 40}), 1, 6).Draw(t, "after")
